@@ -33,7 +33,7 @@ DT = {"c128": np.complex128, "c64": np.complex64, "f64": np.float64, "f32": np.f
 
 
 def bounds(tier):
-    return {"shapes": "1-4 dims over lengths 1..5, <= %d elements" % (24 if tier == "quick" else 60),
+    return {"shapes": "1-3 dims over lengths 1..5, <= %d elements; 4 dims: <= %d elements%s" % (24 if tier == "quick" else 60, 16 if tier == "quick" else 24, "" if tier == "quick" else ", lengths <= 3"),
             "axes": "every subset of range(-ndim, ndim) without duplicates mod ndim, and None",
             "center": [True, False], "norm": ["ortho", None],
             "oshape": "centred only: 1-D n in 1..5 -> m in 1..7; 2-D/3-D: every per-axis choice from {n-1, n, n+1, n+2}",
@@ -45,7 +45,9 @@ def gen_cases(tier, seed):
     cases = []
     shp = space.shapes((1, 2, 3, 4), (1, 2, 3, 4, 5), 60 if T else 24)
     for s in shp:
-        if len(s) == 4 and not T and space.prod(s) > 16:
+        if len(s) == 4 and space.prod(s) > (24 if T else 16):
+            continue
+        if len(s) == 4 and T and max(s) > 3:
             continue
         for ax in space.axes_subsets(len(s)):
             if len(s) == 4 and ax is not None and not T and len(ax) in (2, 3) and any(a < 0 for a in ax) and any(a >= 0 for a in ax):
@@ -53,7 +55,9 @@ def gen_cases(tier, seed):
             for cen in (True, False):
                 for norm in ("ortho", None):
                     for dt in DT:
-                        if dt != "c128" and not T and len(s) > 2 and norm is None:
+                        if dt != "c128" and len(s) > 2 and norm is None and not (T and len(s) == 3):
+                            continue
+                        if len(s) == 4 and dt in ("f32", "c64") and T and ax is not None and len(ax) > 1:
                             continue
                         cases.append(dict(kind="fft", shape=list(s), axes=None if ax is None else list(ax),
                                           center=cen, norm=norm, oshape=None, dtype=dt))
